@@ -27,14 +27,32 @@ class InjectedError(Exception):
     """A custom exception class, to check that arbitrary user exceptions are chained."""
 
 
-EXCEPTIONS = {
+def _fsic_exc(name):
+    import fsic.exceptions as fx
+
+    return getattr(fx, name)
+
+
+class _LazyExceptions(dict):
+    """Exception classes by name; fsic's own classes are looked up when first used (a user hook may well raise them)."""
+
+    def __missing__(self, key):
+        if key.startswith('fsic.'):
+            self[key] = _fsic_exc(key[5:])
+            return self[key]
+        raise KeyError(key)
+
+
+EXCEPTION_NAMES = ['ZeroDivisionError', 'ValueError', 'KeyError', 'IndexError', 'InjectedError', 'FloatingPointError', 'fsic.SolutionError', 'fsic.NonConvergenceError', 'fsic.DimensionError']
+
+EXCEPTIONS = _LazyExceptions({
     'ZeroDivisionError': ZeroDivisionError,
     'ValueError': ValueError,
     'KeyError': KeyError,
     'IndexError': IndexError,
     'InjectedError': InjectedError,
     'FloatingPointError': FloatingPointError,
-}
+})
 
 
 WARNING_CATEGORIES = {
